@@ -27,8 +27,19 @@ Record node := mkNode {
 Record entity := mkEnt { e_id : N; e_nodes : list N }.
 (* runtime descriptor: kind 1 compute / 2 key manager; governance 1 entity / 2 runtime / 3 consensus;
    admission policy: None = any node, Some l = entity whitelist without per-role limits *)
-Record runtime := mkRt { r_id : N; r_ent : N; r_kind : N; r_gov : N; r_wl : option (list N);
-                          r_km : option N }.   (* key manager runtime a compute runtime refers to *)
+(* a deployment (VersionInfo runtime.go:645-658): version as ToU64, valid-from epoch,
+   TEE constraint bytes (0 = none) *)
+Record deployment := mkDep { d_ver : N; d_from : N; d_tee : N }.
+(* admission policy: r_wl = None and r_pr = [] is "any node"; r_wl = Some l is the
+   entity whitelist, each entity with its role -> max-nodes map ([] = unlimited);
+   r_pr is the per-role policy: role -> entity -> max nodes (0 = unlimited) *)
+Record runtime := mkRt { r_id : N; r_ent : N; r_kind : N; r_gov : N;
+                          r_wl : option (list (N * list (N * N)));
+                          r_km : option N;        (* key manager runtime a compute runtime refers to *)
+                          r_pr : list (N * list (N * N));
+                          r_genesis : N;          (* genesis state root / round, abstract *)
+                          r_tee : N;              (* TEE hardware: 0 none, 1 SGX, >= 2 reserved *)
+                          r_deps : list deployment }.
 
 (* ---------- finite sets of pairs (index entries with empty value) ---------- *)
 Definition pair_eqb (a b : N * N) : bool := (fst a =? fst b) && (snd a =? snd b).
@@ -130,7 +141,7 @@ Inductive code :=
 | COk | CInvalidSignature | CInvalidArgument | CIncorrectTxSigner | CNoSuchEntity
 | CNodeExpired | CNodeUpdateNotAllowed | CEntityHasNodes | CEntityHasRuntimes | COther
 | CForbidden | CRuntimeUpdateNotAllowed | CNoSuchRuntime
-| CNoSuchNode | CBadEntityForNode | CNodeCannotBeUnfrozen.
+| CNoSuchNode | CBadEntityForNode | CNodeCannotBeUnfrozen | CNoEnclave.
 
 (* ---------- operations ---------- *)
 Inductive op :=
@@ -290,16 +301,95 @@ Section WithParams.
     else if negb (has_role (n_roles n) (n_roles cur)) then CNodeUpdateNotAllowed  (* 1092 *)
     else COk.
 
-  (* RuntimeAdmissionPolicy.Verify admission.go:57-160 for every runtime of the node *)
+  (* GetEntityNodes state.go:405-445 (records of the by-entity entries, id order);
+     None when an entry does not resolve *)
+  Definition entity_node_records (s : state) (e : N) : option (list node) :=
+    let ids := nsort (map snd (filter (fun p => fst p =? e) (s_byent s))) in
+    fold_right (fun id acc => match aget id (s_nodes s), acc with
+                              | Some n, Some l => Some (n :: l)
+                              | _, _ => None
+                              end) (Some []) ids.
+
+  (* verifyNodeCountWithRoleForRuntime admission.go:262-300: the loop with its
+     early exit; true = too many *)
+  Fixpoint count_loop (epoch : N) (newid rt role max cur : N) (l : list node) : bool :=
+    match l with
+    | [] => false
+    | m :: rest =>
+        if (n_id m =? newid) || (n_exp m <? epoch) || negb (nmem rt (n_rts m))
+        then count_loop epoch newid rt role max cur rest                      (* 277-282 *)
+        else
+          let cur' := if has_role (n_roles m) role then cur + 1 else cur in   (* 284 *)
+          if max <? cur' + 1 then true                                        (* 290 *)
+          else count_loop epoch newid rt role max cur' rest
+    end.
+  Definition too_many (s : state) (n : node) (rt role max : N) : code :=
+    match entity_node_records s (n_ent n) with
+    | None => COther
+    | Some l => if count_loop (s_epoch s) (n_id n) rt role max 0 l then CForbidden else COk
+    end.
+
+  Definition all_roles : list N := [1; 2; 4; 8; 32].     (* node.Roles() node.go:212 *)
+
+  (* EntityWhitelistRuntimeAdmissionPolicy.Verify admission.go:122-170 *)
+  Fixpoint wl_roles_check (s : state) (n : node) (rt : N) (maxnodes : list (N * N)) (roles : list N) : code :=
+    match roles with
+    | [] => COk
+    | role :: rest =>
+        if negb (has_role (n_roles n) role) then wl_roles_check s n rt maxnodes rest
+        else match aget role maxnodes with
+             | None => CForbidden                                             (* 152 *)
+             | Some mx =>
+                 if mx =? 0 then CForbidden                                   (* 156 *)
+                 else match too_many s n rt role mx with
+                      | COk => wl_roles_check s n rt maxnodes rest
+                      | c => c
+                      end
+             end
+    end.
+  Definition wl_check (s : state) (n : node) (rt : runtime) : code :=
+    match r_wl rt with
+    | None => COk
+    | Some wl =>
+        match aget (n_ent n) wl with
+        | None => CForbidden                                                  (* 131 *)
+        | Some [] => COk                                                      (* 134 any amount *)
+        | Some mn => wl_roles_check s n (r_id rt) mn all_roles
+        end
+    end.
+  (* per-role policies admission.go:69-88, 226-245 *)
+  Fixpoint pr_check (s : state) (n : node) (rt : runtime) (roles : list N) : code :=
+    match roles with
+    | [] => COk
+    | role :: rest =>
+        if negb (has_role (n_roles n) role) then pr_check s n rt rest
+        else match aget role (r_pr rt) with
+             | None => pr_check s n rt rest
+             | Some ents =>
+                 match aget (n_ent n) ents with
+                 | None => CForbidden                                         (* 236 *)
+                 | Some mx =>
+                     if mx =? 0 then pr_check s n rt rest                     (* 239 *)
+                     else match too_many s n (r_id rt) role mx with
+                          | COk => pr_check s n rt rest
+                          | c => c
+                          end
+                 end
+             end
+    end.
+  (* RuntimeAdmissionPolicy.Verify admission.go:57-90 for every runtime of the node *)
   Fixpoint admission_check (s : state) (n : node) (l : list N) : code :=
     match l with
     | [] => COk
     | r :: rest =>
         match any_runtime s r with
         | Some rt =>
-            match r_wl rt with
-            | Some wl => if nmem (n_ent n) wl then admission_check s n rest else CForbidden
-            | None => admission_check s n rest
+            match wl_check s n rt with
+            | COk => match pr_check s n rt all_roles with
+                     | COk => admission_check s n rest
+                     | c => c
+                     end
+            | c => c
             end
         | None => admission_check s n rest
         end
@@ -408,16 +498,88 @@ Section WithParams.
                      | Some km => if r_kind km =? 2 then COk else CInvalidArgument  (* 1196-1204 *)
                      end
          end.
-  (* VerifyRuntimeUpdate api.go:1234-1371 for an existing (active or suspended) runtime *)
+  (* ---------- deployments ---------- *)
+  Definition dep_eqb (a b : deployment) : bool :=
+    (d_ver a =? d_ver b) && (d_from a =? d_from b) && (d_tee a =? d_tee b).
+  Fixpoint dep_insert (d : deployment) (l : list deployment) : list deployment :=
+    match l with
+    | [] => [d]
+    | x :: r => if d_ver d <? d_ver x then d :: l else x :: dep_insert d r   (* stable: after equal versions *)
+    end.
+  Definition dep_sort (l : list deployment) : list deployment := fold_left (fun acc d => dep_insert d acc) l [].
+  Definition max_deployments : N := 3.   (* max(2, params.MaxRuntimeDeployments); the harness sets 3 *)
+  (* the loop of ValidateDeployments runtime.go:566-611 over the deployments sorted by version *)
+  Fixpoint vd_loop (hw : N) (prev : option deployment) (l : list deployment) : code :=
+    match l with
+    | [] => COk
+    | d :: r =>
+        if match prev with Some p => d_ver p =? d_ver d | None => false end then CInvalidArgument  (* 567 *)
+        else if match prev with Some p => d_from d <=? d_from p | None => false end then CInvalidArgument (* 577 *)
+        else if (hw =? 0) && negb (d_tee d =? 0) then CInvalidArgument                             (* 589 *)
+        else if (hw =? 1) && (d_tee d =? 0) then CNoEnclave     (* 592-602: empty constraints decode, no enclaves *)
+        else if (hw =? 1) then CInvalidArgument                 (* 594: the harness's non-empty bytes are not CBOR *)
+        else if negb (hw =? 0) then CInvalidArgument            (* 604 *)
+        else vd_loop hw (Some d) r
+    end.
+  (* ValidateDeployments runtime.go:529-617 *)
+  Definition validate_deployments (now : N) (rt : runtime) : code :=
+    if N.of_nat (length (r_deps rt)) =? 0 then CInvalidArgument                    (* 537 *)
+    else if max_deployments <? N.of_nat (length (r_deps rt)) then CInvalidArgument  (* 544 *)
+    else match vd_loop (r_tee rt) None (dep_sort (r_deps rt)) with
+         | COk => if 1 <? N.of_nat (length (filter (fun d => now <? d_from d) (r_deps rt)))
+                  then CInvalidArgument else COk                                   (* 612 *)
+         | c => c
+         end.
+  (* ActiveDeployment runtime.go:477-496 *)
+  Definition active_deployment (now : N) (l : list deployment) : option deployment :=
+    fold_left (fun acc d =>
+                 if now <? d_from d then acc
+                 else match acc with
+                      | None => Some d
+                      | Some a => if d_from a <? d_from d then Some d else acc
+                      end) l None.
+  Fixpoint find_version (v : N) (l : list deployment) : option deployment :=
+    match l with [] => None | d :: r => if d_ver d =? v then Some d else find_version v r end.
+  (* api.go:1311-1345: every deployment of the new descriptor is an unchanged old one or starts in the future *)
+  Definition deps_update_ok (now : N) (cur new : list deployment) : bool :=
+    forallb (fun d => match find_version (d_ver d) cur with
+                      | Some o => dep_eqb d o || (now <? d_from d)
+                      | None => now <? d_from d
+                      end) new.
+  (* api.go:1347-1368 *)
+  Definition active_kept (now : N) (cur new : list deployment) : bool :=
+    match active_deployment now cur, active_deployment now new with
+    | Some a, Some b => dep_eqb a b
+    | Some _, None => false
+    | None, Some _ => false
+    | None, None => true
+    end.
+  (* admission policy ValidateBasic admission.go:24-54, 100-118: role keys are single roles *)
+  Definition single_role (m : N) : bool := nmem m all_roles.
+  Definition policy_valid (rt : runtime) : bool :=
+    match r_wl rt with
+    | Some wl => forallb (fun e => forallb (fun p => single_role (fst p)) (snd e)) wl
+    | None => true
+    end && forallb (fun p => single_role (fst p)) (r_pr rt).
+
+  (* VerifyRuntimeUpdate api.go:1234-1371 for an existing (active or suspended) runtime;
+     VerifyRuntimeNew api.go:1220-1232 otherwise *)
   Definition rt_update_check (s : state) (rt : runtime) : code :=
     match any_runtime s (r_id rt) with
     | Some ex =>
         if negb (r_kind ex =? r_kind rt) then CRuntimeUpdateNotAllowed  (* api.go:1249 *)
+        else if negb (r_genesis ex =? r_genesis rt) then CRuntimeUpdateNotAllowed  (* api.go:1256 *)
         else if km_changed (r_km ex) (r_km rt) then CRuntimeUpdateNotAllowed  (* api.go:1261-1276 *)
         else if negb (r_gov ex =? r_gov rt) && negb ((r_gov ex =? 1) && (r_gov rt =? 2))
              then CRuntimeUpdateNotAllowed                              (* api.go:1279-1289 *)
+        else if negb (deps_update_ok (s_epoch s) (r_deps ex) (r_deps rt)) then CRuntimeUpdateNotAllowed
+        else if negb (active_kept (s_epoch s) (r_deps ex) (r_deps rt)) then CRuntimeUpdateNotAllowed
         else COk
-    | None => COk
+    | None =>
+        match active_deployment (s_epoch s) (r_deps rt) with            (* api.go:1223 no immediate deployment *)
+        | Some _ => CRuntimeUpdateNotAllowed
+        | None => COk
+        end
     end.
   (* transactions.go:662-700: the caller must be the account that controls the
      EXISTING descriptor if there is one, else the new one *)
@@ -438,8 +600,13 @@ Section WithParams.
          then CInvalidArgument                                            (* runtime.go:450 *)
     else if (r_kind rt =? 2) && negb (km_id (r_id rt)) then CInvalidArgument (* runtime.go:446 *)
     else if negb ((r_kind rt =? 1) || (r_kind rt =? 2)) then CInvalidArgument (* runtime.go:459 *)
+    else if negb (policy_valid rt) then CInvalidArgument                  (* runtime.go:466 *)
     else if (r_gov rt <? 1) || (3 <? r_gov rt) then CInvalidArgument      (* runtime.go:470 *)
+    else if N.of_nat (length (r_deps rt)) =? 0 then CInvalidArgument      (* runtime.go:474 *)
     else if negb ((r_gov rt =? 1) || (r_gov rt =? 2)) then CForbidden     (* api.go:1149 model not enabled *)
+    else if 2 <=? r_tee rt then CInvalidArgument                          (* api.go:1156 *)
+    else if negb (code_is_ok (validate_deployments (s_epoch s) rt))
+         then validate_deployments (s_epoch s) rt                          (* api.go:1165 *)
     else if (r_gov rt =? 2) && negb (r_kind rt =? 1) then CInvalidArgument (* api.go:1171 *)
     else if negb (code_is_ok (km_ref_check s rt)) then km_ref_check s rt  (* transactions.go:612-616 *)
     else match rt_update_check s rt with
@@ -602,8 +769,16 @@ Section WithParams.
       ++ rt_claims_part s (2 * e).
   Definition rt_acct_row (s : state) (r : N) : list N := (2000 + r) :: rt_claims_part s (2 * r + 1).
   Definition runtime_row (s : state) (r : N) : list N :=
-    let row st rt := [r; st; r_ent rt; r_kind rt; r_gov rt; match r_km rt with Some k => k | None => 0 end] ++
-                     match r_wl rt with Some l => 1 :: l | None => [0] end in
+    let row st rt := [r; st; r_ent rt; r_kind rt; r_gov rt; match r_km rt with Some k => k | None => 0 end;
+                      r_genesis rt; r_tee rt] ++
+                     flat_map (fun d => [d_ver d; d_from d; d_tee d]) (r_deps rt) ++ [7777] ++
+                     match r_wl rt with
+                     | Some l => 1 :: flat_map (fun e => fst e :: N.of_nat (length (snd e)) ::
+                                                         flat_map (fun p => [fst p; snd p]) (snd e)) l
+                     | None => [0]
+                     end ++ [7777] ++
+                     flat_map (fun p => fst p :: N.of_nat (length (snd p)) ::
+                                        flat_map (fun q => [fst q; snd q]) (snd p)) (r_pr rt) in
     match aget r (s_rts s) with
     | Some rt => row 1 rt
     | None => match aget r (s_susp s) with Some rt => row 2 rt | None => [r; 0] end
@@ -641,7 +816,7 @@ Definition code_n (c : code) : N :=
   | CNoSuchEntity => 4 | CNodeExpired => 5 | CNodeUpdateNotAllowed => 6
   | CEntityHasNodes => 7 | CEntityHasRuntimes => 8 | COther => 9
   | CForbidden => 10 | CRuntimeUpdateNotAllowed => 11 | CNoSuchRuntime => 12
-  | CNoSuchNode => 13 | CBadEntityForNode => 14 | CNodeCannotBeUnfrozen => 15
+  | CNoSuchNode => 13 | CBadEntityForNode => 14 | CNodeCannotBeUnfrozen => 15 | CNoEnclave => 16
   end.
 Definition obs_eqb (a b : code * list (list N)) : bool :=
   (code_n (fst a) =? code_n (fst b)) && list_eqb (list_eqb N.eqb) (snd a) (snd b).
